@@ -109,7 +109,8 @@ class Report:
 
     def finish(self):
         pid = self.pid
-        out_dir = os.path.join(VERIF, 'out', pid)
+        base = os.environ.get('VERIF_OUT_BASE', VERIF)
+        out_dir = os.path.join(base, 'out', pid)
         os.makedirs(out_dir, exist_ok=True)
         stale = [k for k in self.axioms if k not in self.axioms_hit]
         if stale:
@@ -123,7 +124,7 @@ class Report:
             seen.add(key)
             h = hashlib.sha256(key.encode()).hexdigest()[:12]
             path = os.path.join('out', pid, f"{h}.json")
-            with open(os.path.join(VERIF, path), 'w') as f:
+            with open(os.path.join(base, path), 'w') as f:
                 json.dump({'property': pid, 'key': key, 'text': text, 'detail': detail}, f, indent=1, default=str)
             print(f"VIOLATION property={pid} replay={path}")
             print(f"  {text}")
@@ -158,8 +159,8 @@ class Report:
             'wall_s': self.wall_s,
             'violations': len(seen),
         }
-        os.makedirs(os.path.join(VERIF, 'evidence'), exist_ok=True)
-        with open(os.path.join(VERIF, 'evidence', f"{pid}.json"), 'w') as f:
+        os.makedirs(os.path.join(base, 'evidence'), exist_ok=True)
+        with open(os.path.join(base, 'evidence', f"{pid}.json"), 'w') as f:
             json.dump(ev, f, indent=1, default=str)
         print(f"property={pid} tier={self.tier} level={self.level} obligations={self.obligations} discharged={self.discharged} "
               f"residual={len(self.by_axiom)} known={len(self.known)} violations={len(seen)} wall={self.wall_s}s")
